@@ -165,6 +165,15 @@ def run_reuse(item):
                 cb, ib = fb.Taylor(f, n=n, full_output=True, **dict(kw, **caps))(z0)
                 fun_hist.append(dict(caps=caps, iterations=int(end[0]['circles']) if len(end) == 1 else int(ia.iterations) + 1, failed=bool(ia.failed), used_max_iter=end[0]['max_iter'] if len(end) == 1 else None,
                                      same=bool(np.asarray(ca).tobytes() == np.asarray(cb).tobytes() and (bool(ia.degenerate), bool(ia.failed), int(ia.iterations)) == (bool(ib.degenerate), bool(ib.failed), int(ib.iterations)))))
+            # derivative(f, z0, n, options) is taylor(f, z0, n, options) * k! - for every option, not only the default ones
+            import math as _m
+            for ne_ in (1, 2, 4):
+                ct, it_ = fb.taylor(f, z0, n=n, num_extrap=ne_, step_ratio=2.0, full_output=True)
+                cd, id_ = fb.derivative(f, z0, n=n, num_extrap=ne_, step_ratio=2.0, full_output=True)
+                fact = np.array([float(_m.factorial(k_)) for k_ in range(len(ct))])
+                w_ = np.asarray(ct) * fact
+                if not ((np.abs(np.asarray(cd) - w_) <= 1e-12 * np.abs(w_) + 1e-300).all() and int(id_.iterations) == int(it_.iterations)):
+                    fun_hist.append(dict(caps=dict(num_extrap=ne_), iterations=int(id_.iterations), failed=bool(id_.failed), used_max_iter=None, same=False))
     except Exception as ex:
         return dict(error='%s: %s' % (type(ex).__name__, str(ex)[:160]))
     return dict(calls=out, fun_hist=fun_hist)
